@@ -53,6 +53,26 @@ MUTANTS = [
 ]
 
 MUTANTS += [
+    # ---- C18
+    ("ei_tail_gradient_sign", "C18", "inference/gp/acquisition.py",
+     "            grad_ln_EI = (0.5 * dvar / sig[0] + R * dmu) / (H * sig[0])", "            grad_ln_EI = (0.5 * dvar / sig[0] - R * dmu) / (H * sig[0])"),
+    ("ei_tail_value_wrong_in_opt_func", "C18", "inference/gp/acquisition.py",
+     "    def opt_func(self, x) -> float:\n        mu, sig = self.gp(x)\n        Z = (mu[0] - self.mu_max) / sig[0]\n        if Z < -3:\n            ln_EI = log(1 + Z * self.cdf_pdf_ratio(Z)) + self.ln_pdf(Z) + log(sig[0])",
+     "    def opt_func(self, x) -> float:\n        mu, sig = self.gp(x)\n        Z = (mu[0] - self.mu_max) / sig[0]\n        if Z < -3:\n            ln_EI = log(1 + Z * self.cdf_pdf_ratio(Z)) + self.ln_pdf(Z) + 2 * log(sig[0])"),
+    ("ucb_gradient_factor", "C18", "inference/gp/acquisition.py",
+     "        grad_ucb = dmu + 0.5 * self.kappa * dvar / sig[0]", "        grad_ucb = dmu + self.kappa * dvar / sig[0]"),
+    ("incumbent_ignores_latest", "C18", "inference/gp/acquisition.py",
+     "        self.mu_max = gp.y.max()", "        self.mu_max = gp.y[: max(2, gp.y.size - 1)].max() if gp.y.size > 6 else gp.y.max()"),
+    ("refit_on_stale_data", "C18", "inference/gp/optimisation.py",
+     "        self.gp = GpRegressor(\n            x=self.x,\n            y=self.y,\n            y_err=self.y_err,\n            kernel=self.kernel,",
+     "        keep = slice(None) if self.y.size < 7 else slice(0, -1)\n        self.gp = GpRegressor(\n            x=self.x[keep],\n            y=self.y[keep],\n            y_err=self.y_err if self.y_err is None else self.y_err[keep],\n            kernel=self.kernel,"),
+    ("diffev_bounds_widened", "C18", "inference/gp/optimisation.py",
+     "            self.acquisition.opt_func, self.bounds, popsize=30", "            self.acquisition.opt_func, [(b[0], b[1] + 0.05 * (b[1] - b[0])) for b in self.bounds], popsize=30"),
+    ("maxvar_returns_sigma", "C18", "inference/gp/acquisition.py",
+     "        _, sig = self.gp(x)\n        return sig[0] ** 2\n", "        _, sig = self.gp(x)\n        return sig[0] ** 2 if sig[0] > 0.05 else sig[0] * 0.05\n"),
+    ("ei_pdf_cdf_swapped_in_gradient", "C18", "inference/gp/acquisition.py",
+     "            grad_ln_EI = (0.5 * pdf * dvar / sig[0] + dmu * cdf) / EI", "            grad_ln_EI = (0.5 * cdf * dvar / sig[0] + dmu * pdf) / EI"),
+    ("revert_optimiser_resize", "C18", "REVERT", "no longer reshapes the caller", ""),
     # ---- C01
     ("gibbs_inverted_ratio", "C01", "inference/mcmc/gibbs.py",
      "                    acceptance_prob = exp(p_new - p_old)\n                    p.submit_accept_prob(acceptance_prob)",
